@@ -124,8 +124,8 @@ def run(ctx):
         want_conds = {
             "contains(%s, %s) is [True]" % (P_(calc, pinfo_i, ".requirements.whitelist"), P_(calc, cinfo_i, ".sender")),
             zero_eq + "[True]",
-            "lt(%s, %s) is [False]" % (D0, P_(calc, pinfo_i, ".requirements.first_asset_minimum")),
-            "lt(%s, %s) is [False]" % (D1, P_(calc, pinfo_i, ".requirements.second_asset_minimum")),
+            "le(%s, %s)" % (P_(calc, pinfo_i, ".requirements.first_asset_minimum"), D0),
+            "le(%s, %s)" % (P_(calc, pinfo_i, ".requirements.second_asset_minimum"), D1),
         }
         if cs != want_conds:
             missing = want_conds - cs
@@ -361,7 +361,7 @@ def run(ctx):
                 else:
                     r3.site("%s runs after the adjustment loop" % common.last_seg(p))
     # ---- R4 deposits -------------------------------------------------------------------------------------------------------------
-    depv = cv[4][dep_i]
+    depv = common.inline_helpers(P, cv[4][dep_i])
     if depv[0] != "agg" or depv[1] != "array" or len(depv[3]) != 2:
         r4.fail("C05.R4:shape", f.path, f.span, "deposits is not a 2-element array literal: unrecognised-idiom")
     else:
